@@ -63,6 +63,18 @@ Example C18_adts_sync_offset_sat :
   (length junk <= 187)%nat /\ bytes_ok junk = true /\ no_sync_in junk = true.
 Proof. cbv zeta. repeat split. cbn [length]. lia. Qed.
 
+(* for ANY input whose first sync word (naive position-by-position scan) lies within the first 188
+   bytes, the search stops exactly there: the reported offset is the position at which the sync word
+   was found, whatever header follows *)
+Theorem C18_adts_sync_first :
+  forall (data : list N) (p : nat),
+    bytes_ok data = true -> first_sync data = Some p -> (p <= 187)%nat ->
+    exists x T,
+      data = firstn p data ++ 255 :: x :: T /\ is_sync2 x = true /\
+      sync_loop ts_packet_size (rinit data) 0 0%Z = (true, x, Z.of_nat p, mkR (unpack T) false).
+Proof. exact sync_first. Qed.
+Print Assumptions C18_adts_sync_first.
+
 (* NewADTSHeader yields a canonical header carrying the index of the requested table frequency *)
 Theorem C18_new_adts_canonical :
   forall (f : Z) (ch pl : N) (h : adts),
